@@ -635,6 +635,13 @@ class ConstEval:
             return dict(v)
         if d == "dir" and len(e.args) == 1 and self.prog.dotted(e.args[0]) == "builtins":
             return dir(builtins)
+        if d == "getattr" and len(e.args) == 2 and self.prog.dotted(e.args[0]) == "builtins":
+            try:
+                return getattr(builtins, self.ev(e.args[1]))
+            except Exception as error:
+                raise Unresolvable(str(error)) from error
+        if d == "callable" and len(e.args) == 1:
+            return callable(self.ev(e.args[0]))
         if d == "getattr" and len(e.args) == 3:
             base = self.prog.dotted(e.args[0])
             al = self.mod.aliases.get(base or "")
